@@ -506,6 +506,56 @@ func sameOval(a, b oval) bool {
 }
 
 // classify names the kind of property failure narrowly: functor, operand kinds, what went wrong.
+// f9Witness: the expression contains a + or - whose float operands trip addF's overflow pre-check
+// (y > 0 && x > MaxFloat64-y, or y < 0 && x < -MaxFloat64-y) although the sum is finite: the recorded
+// finding F9, identified by its call site whatever the surrounding expression is.
+func f9Witness(e *ex) bool {
+	if e.K != 'c' {
+		return false
+	}
+	for _, a := range e.Args {
+		if f9Witness(a) {
+			return true
+		}
+	}
+	if (e.S == "+" || e.S == "-") && len(e.Args) == 2 {
+		a, b := specEval(e.Args[0]), specEval(e.Args[1])
+		if (a.kind == "int" || a.kind == "flt") && (b.kind == "int" || b.kind == "flt") && (a.kind == "flt" || b.kind == "flt") {
+			x, y := a.f, b.f
+			if a.kind == "int" {
+				x = float64(a.i)
+			}
+			if b.kind == "int" {
+				y = float64(b.i)
+			}
+			if e.S == "-" {
+				y = -y
+			}
+			tripped := (y > 0 && x > math.MaxFloat64-y) || (y < 0 && x < -math.MaxFloat64-y)
+			return tripped && !math.IsInf(x+y, 0)
+		}
+	}
+	return false
+}
+
+// f29Witness: the expression contains (+-1) ^ min_integer, for which the implementation negates the exponent
+// and reports int_overflow (pinned by number_test.go "-1 ^ minInt"); the value is 1.
+func f29Witness(e *ex) bool {
+	if e.K != 'c' {
+		return false
+	}
+	for _, a := range e.Args {
+		if f29Witness(a) {
+			return true
+		}
+	}
+	if e.S == "^" && len(e.Args) == 2 {
+		a, b := specEval(e.Args[0]), specEval(e.Args[1])
+		return a.kind == "int" && b.kind == "int" && (a.i == 1 || a.i == -1) && b.i == math.MinInt64
+	}
+	return false
+}
+
 func classifyC07(e *ex, want, got oval) string {
 	kinds := ""
 	for _, a := range e.Args {
@@ -517,6 +567,12 @@ func classifyC07(e *ex, want, got oval) string {
 		default:
 			kinds += "E"
 		}
+	}
+	if got.kind == "err" && got.err == "int_overflow" && f29Witness(e) {
+		return "F29:unit-base-to-min-integer"
+	}
+	if got.kind == "err" && got.err == "float_overflow" && f9Witness(e) {
+		return "F9:addF-overflow-pre-check"
 	}
 	w, g := want.kind, got.kind
 	if want.kind == "err" {
@@ -745,6 +801,12 @@ func runC07(outDir string, seed int64, tier string) {
 				want := specCompare(c.op, a, b)
 				if !gotOK || gotB != want {
 					cls := fmt.Sprintf("%s:%s%s:want=%v", c.op, a.kind, b.kind, want)
+					if strings.Contains(coqObs, "IntOverflow") && (f29Witness(c.e) || f29Witness(c.e2)) {
+						cls = "F29:unit-base-to-min-integer"
+					}
+					if strings.Contains(coqObs, "FloatOverflow") && (f9Witness(c.e) || f9Witness(c.e2)) {
+						cls = "F9:addF-overflow-pre-check"
+					}
 					sum.Failures = append(sum.Failures, failure{ID: id, Class: cls, Input: map[string]interface{}{"query": q, "args": encodeArgs(args), "text": desc},
 						Observed: coqObs, Expected: fmt.Sprint(want)})
 				}
